@@ -33,7 +33,7 @@ def c04_unit(wid: str, sid: int, cuts=None, bias=False, use_folder=False):
     u["cut_seed"] = core.grid("cuts", wid, sid)
     u["bias"] = bias
     u["use_folder"] = use_folder
-    u["wall"] = 400
+    u["wall"] = 1500
     return u
 
 
